@@ -93,6 +93,10 @@ mod raw_string;
 mod repr;
 mod table;
 mod value;
+#[cfg(toml_rs_toml_verif)]
+#[doc(hidden)]
+#[path = "verif.rs"]
+pub mod __verif;
 
 #[cfg(feature = "serde")]
 pub mod de;
